@@ -380,8 +380,13 @@ class PythonToIrCompiler:
             assert var.lvalue
             lhs = self.builder.emit_load(var.value, var.ty)
             rhs = self.gen_expr(statement.value)
-            op = self.binop_map[type(statement.op)]
-            value = self.emit(ir.Binop(lhs, op, rhs, "augassign", var.ty))
+            if isinstance(statement.op, ast.FloorDiv):
+                value = self.gen_floor_div(lhs, rhs, var.ty)
+            else:
+                op = self.binop_map[type(statement.op)]
+                value = self.emit(
+                    ir.Binop(lhs, op, rhs, "augassign", var.ty)
+                )
             self.emit(ir.Store(value, var.value))
         else:  # pragma: no cover
             self.not_impl(statement)
@@ -498,12 +503,37 @@ class PythonToIrCompiler:
         # TODO: assume type of a?
         ty = a.ty
         op_typ = type(expr.op)
+        if op_typ is ast.FloorDiv:
+            return self.gen_floor_div(a, b, ty)
         if op_typ in self.binop_map:
             op = self.binop_map[op_typ]
         else:
             self.not_impl(expr)
         value = self.builder.emit_binop(a, op, b, ty)
         return value
+
+    def gen_floor_div(self, a, b, ty):
+        """Compile 'a // b'.
+
+        The IR division truncates towards zero, python rounds towards
+        minus infinity: subtract one from the quotient when the
+        remainder is non-zero and its sign differs from the divisor.
+        """
+        quotient = self.builder.emit_binop(a, "/", b, ty)
+        if not (ty.is_integer and ty.signed):
+            return quotient
+        remainder = self.builder.emit_binop(a, "%", b, ty)
+        zero = self.builder.emit_const(0, ty)
+        shift = self.builder.emit_const(ty.bits - 1, ty)
+        # All ones when remainder and divisor have different signs:
+        signs = self.builder.emit_binop(remainder, "^", b, ty)
+        signs = self.builder.emit_binop(signs, ">>", shift, ty)
+        # All ones when the remainder is not zero:
+        negated = self.builder.emit_binop(zero, "-", remainder, ty)
+        nonzero = self.builder.emit_binop(remainder, "|", negated, ty)
+        nonzero = self.builder.emit_binop(nonzero, ">>", shift, ty)
+        adjust = self.builder.emit_binop(signs, "&", nonzero, ty)
+        return self.builder.emit_binop(quotient, "+", adjust, ty)
 
     def gen_call(self, expr):
         """Compile call-expression."""
